@@ -63,7 +63,12 @@ RULE = ("jc: (the text of matrix_bincount2d regenerated from libinfo.pyx, Gen/In
         "away from a legal id in every wider element type (legal + 2^k, + 3*2^k, legal - 2^k, the type's minimum, the top "
         "bit); negative ids; ids >= n; lengths differing by one; no frames on one side against frames on the other (either "
         "side)}: rejected (an exception, no crash) or counted exactly, also compared with the model joint_counts / "
-        "pooled_counts / the regenerated kernel text")
+        "pooled_counts / the regenerated kernel text. Round 3s (E): the ent and kl streams repeated on other argument containers "
+        "(36 + 70 quick): shannon_entropy on numpy.matrix (built directly / through scipy's .todense(): a vector is a 1 x n row "
+        "matrix, also 2 x n/2 and square 2 x 2 / 3 x 3 matrices) and plain lists, normalize off in most cases; kl_divergence on "
+        "numpy.matrix (both sides / only P / only Q), .todense() results, ndarrays and tuples, as one distribution (1 x n), the "
+        "two-row form and n distributions over n values (square); every value compared with the exact reference of the same "
+        "cells (1e-9), every row non-negative, one divergence per row; the Coq comparison of the first row is kept")
 TRUSTED = ["translator/tr_infopy.py (mutual_info.py: joint_counts, mutual_information, _validate_feature_states_array, "
            "channel_capacity_normalization, mi_matrix, weighted_mi; entropy.py: shannon_entropy, kl_divergence (1-D and 2-D) -> Gen/MutualInfoGen.v, "
            "Gen/EntropyGen.v, proved equal to the model for all inputs; vocabulary Base/InfoPyBase.v: NumPy axes/broadcast/"
@@ -323,6 +328,55 @@ def _gen_kl(rng):
         (P if rng.random() < 0.5 else Q)[rng.randrange(n)] = F(-1, 8)
     c["P"] = [str(x) for x in P]
     c["Q"] = [str(x) for x in Q]
+    return c
+
+
+ENT_CONTS = ["matrix", "todense", "matrix", "list", "matrix", "todense"]
+KL_CONTS = ["matrix", "todense", "matrix-P", "ndarray", "matrix", "matrix-Q", "tuple"]
+KL_FORMS = ["row", "square", "two", "square", "row"]
+
+
+def _gen_ent_cont(rng, i):
+    """round 3s (E): the distribution handed over as numpy.matrix (built directly / what scipy's .todense() returns;
+    a vector becomes a 1 x n row matrix, an even-length one also a 2 x n/2 matrix, a perfect square also a square
+    matrix), or as a plain list; normalize off in two of three cases (then the argument itself enters p * log p)"""
+    c = _gen_ent(rng)
+    c["cont"] = ENT_CONTS[i % len(ENT_CONTS)]
+    n = len(c["p"])
+    if i % 3 != 0:
+        p = [F(x) for x in c["p"]]
+        if sum(p) != 1:
+            s = sum(p)
+            p = [x / s for x in p]
+            c["p"] = [str(x) for x in p]
+        c["normalize"] = i % 3 == 1 and rng.random() < 0.3
+    if c["cont"] != "list" and i % 2 == 0:
+        # a square matrix of cells (2 x 2 or 3 x 3): the shape for which a matrix product does not even raise
+        m = rng.choice([2, 2, 3])
+        p = _dist(rng, m * m)
+        c["p"] = [str(x) for x in p]
+        c["two_d"], c["rows"] = True, m
+    return c
+
+
+def _gen_kl_cont(rng, i):
+    """round 3s (E): kl_divergence on numpy.matrix arguments (both / only P / only Q; built directly or through
+    scipy's .todense()), on ndarrays and tuples: one distribution (1 x n row matrix), the two-row form of the main
+    stream, and n distributions over n values (a square matrix)"""
+    c = _gen_kl(rng)
+    c["cont"] = KL_CONTS[i % len(KL_CONTS)]
+    form = KL_FORMS[i % len(KL_FORMS)]
+    n = len(c["P"])
+    if len(c["P"]) != len(c["Q"]):
+        form = "row"
+    c["two_d"] = form == "two"
+    if form == "square" and n >= 2:
+        more = []
+        for _ in range(n - 1):
+            Pi = _dist(rng, n)
+            Qi = list(Pi) if rng.random() < 0.2 else _dist(rng, n, zeros=rng.random() < 0.3)
+            more.append([[str(x) for x in Pi], [str(x) for x in Qi]])
+        c["more"] = more
     return c
 
 
@@ -619,6 +673,11 @@ def generate(rng, tier):
         for via in VIAS:
             for bad in XBADS:
                 cases.append(_gen_jcx(rng, via, bad))
+    # round 3s (E): numpy.matrix / list / tuple arguments of the entropy functions
+    for i in range(36 * k):
+        cases.append(_gen_ent_cont(rng, i))
+    for i in range(70 * k):
+        cases.append(_gen_kl_cont(rng, i))
     if tier == "thorough":
         # every dtype pair x every thread count on one fixed non-trivial input, and a thread sweep
         X = [[0, 1, 2], [1, 1, 0], [2, 0, 0], [1, 2, 1], [0, 1, 2]]
@@ -659,6 +718,24 @@ def _arr(rows, dtype, layout, width=None):
         big[1::2, 1:-1] = a
         return big[1::2, 1:-1]
     return np.ascontiguousarray(a)
+
+
+def _as_container(a, cont):
+    """the same cells as list / tuple / ndarray / numpy.matrix (a vector becomes a 1 x n row matrix, as np.matrix and
+    scipy's .todense() make it)"""
+    if cont == "list":
+        return a.tolist() if isinstance(a, np.ndarray) else a
+    if cont == "tuple":
+        tup = lambda x: tuple(tup(y) for y in x) if isinstance(x, list) else x
+        return tup(a.tolist() if isinstance(a, np.ndarray) else a)
+    if cont == "ndarray":
+        return np.array(a, dtype=float)
+    if cont == "matrix":
+        return np.matrix(np.array(a, dtype=float))
+    if cont == "todense":
+        import scipy.sparse as sp
+        return sp.csr_matrix(np.atleast_2d(np.array(a, dtype=float))).todense()
+    raise ValueError(cont)
 
 
 def _fl(x):
@@ -928,25 +1005,40 @@ def _run_local(c):
     if k == "ent":
         p = np.array([float(F(x)) for x in c["p"]])
         if c["two_d"]:
-            p = p.reshape(2, -1)
-        before = p.copy()
-        _poison([p.size])
+            p = p.reshape(c.get("rows", 2), -1)
+        p = _as_container(p, c.get("cont", "ndarray"))
+        before = np.array(p, dtype=float)
+        _poison([before.size])
         try:
             h = float(E.shannon_entropy(p, normalize=c["normalize"]))
-            return {"h": h, "input_unchanged": bool((p == before).all())}
+            return {"h": h, "input_unchanged": bool((np.asarray(p, dtype=float) == before).all()), "arg": type(p).__name__,
+                    "arg_shape": list(np.shape(p))}
         except Exception as ex:
-            return {"err": type(ex).__name__}
+            return {"err": type(ex).__name__, "msg": str(ex)[:160], "arg": type(p).__name__, "arg_shape": list(np.shape(p))}
     if k == "kl":
         P = [float(F(x)) for x in c["P"]]
         Q = [float(F(x)) for x in c["Q"]]
         base = {"2": 2, "e": math.e, "10": 10}[c["base"]]
         if c["two_d"]:
             P, Q = [P, Q], [Q, Q]
+        elif c.get("more"):
+            P = [P] + [[float(F(x)) for x in m[0]] for m in c["more"]]
+            Q = [Q] + [[float(F(x)) for x in m[1]] for m in c["more"]]
+        cont = c.get("cont", "list")
+        if cont in ("matrix-P", "matrix-Q") and not isinstance(P[0], list):
+            P, Q = [P], [Q]                      # next to a 1 x n row matrix the other side is a 1 x n nested list
+        try:
+            P = _as_container(P, {"matrix-Q": "list", "matrix-P": "matrix"}.get(cont, cont))
+            Q = _as_container(Q, {"matrix-P": "list", "matrix-Q": "matrix"}.get(cont, cont))
+        except ValueError:
+            pass                                 # rows of different lengths: handed over as they are (rejected input)
+        info = {"arg": [type(P).__name__, type(Q).__name__], "arg_shape": [list(np.shape(P)) if not isinstance(P, list) else None]}
         try:
             d = E.kl_divergence(P, Q, base=base)
-            return {"d": [float(v) for v in np.atleast_1d(d)]}
+            return dict(info, d=[float(v) for v in np.asarray(d, dtype=float).ravel()], shape=list(np.shape(d)),
+                        rtype=type(d).__name__)
         except Exception as ex:
-            return {"err": type(ex).__name__}
+            return dict(info, err=type(ex).__name__, msg=str(ex)[:160])
     if k == "wmi":
         X = np.array(c["X"])
         w = np.array([float(F(x)) for x in c["w"]])
@@ -1247,13 +1339,14 @@ def oracle(c, r):
         return out
     if k == "ent":
         if "err" in r:
-            return [("entropy", "raised %s" % r["err"])]
+            return [("entropy", "raised %s %s on a %s of shape %s" % (r["err"], r.get("msg", ""), r.get("arg"), r.get("arg_shape")))]
         p = [F(x) for x in c["p"]]
         if c["normalize"]:
             s = sum(p)
             p = [x / s for x in p]
         if not _close(r["h"], _ent_val(p)):
-            out.append(("entropy", "shannon_entropy=%r expected %r" % (r["h"], _ent_val(p))))
+            out.append(("entropy", "shannon_entropy=%r expected %r (argument: %s of shape %s, normalize=%s)" % (
+                r["h"], _ent_val(p), r.get("arg", "ndarray"), r.get("arg_shape"), c["normalize"])))
         return out
     if k == "kl":
         P = [F(x) for x in c["P"]]; Q = [F(x) for x in c["Q"]]
@@ -1262,7 +1355,8 @@ def oracle(c, r):
                 out.append(("kl-reject", "invalid distributions accepted: %s" % r))
             return out
         if "err" in r:
-            return [("kl-value", "valid input raised %s" % r["err"])]
+            return [("kl-value", "valid input raised %s %s (arguments: %s of shape %s)" % (
+                r["err"], r.get("msg", ""), r.get("arg"), r.get("arg_shape")))]
         lb = {"2": math.log(2), "e": 1.0, "10": math.log(10)}[c["base"]]
 
         def kl(P, Q):
@@ -1270,9 +1364,16 @@ def oracle(c, r):
                 return math.inf
             return sum(float(p) * math.log(float(p) / float(q)) for p, q in zip(P, Q) if p > 0) / lb
         exp = [kl(P, Q), kl(Q, Q)] if c["two_d"] else [kl(P, Q)]
+        if c.get("more") and not c["two_d"]:
+            exp += [kl([F(x) for x in m[0]], [F(x) for x in m[1]]) for m in c["more"]]
+        if len(r["d"]) != len(exp):
+            out.append(("kl-value", "%d distributions on each side but %d divergences (result shape %s; arguments %s)" % (
+                len(exp), len(r["d"]), r.get("shape"), r.get("arg"))))
         for i, (d, e) in enumerate(zip(r["d"], exp)):
             if not _close(d, e):
-                out.append(("kl-value", "kl[%d]=%r expected %r" % (i, d, e)))
+                out.append(("kl-value", "kl[%d]=%r expected %r (arguments: %s of shape %s)" % (i, d, e, r.get("arg"), r.get("arg_shape"))))
+            if c.get("more") and i >= 1 and not d >= -1e-12:
+                out.append(("kl-nonneg", "relative entropy %r < 0 (row %d; arguments %s)" % (d, i, r.get("arg"))))
         d = r["d"][0]
         if sum(P) == 1 and sum(Q) == 1:
             if not d >= -1e-12:
@@ -1631,6 +1732,17 @@ def tags(c, r):
         t.append("kl-rejected")
     if k == "kl" and c.get("near"):
         t.append("kl-near-equal")
+    if k == "kl" and c.get("cont"):
+        form = "two" if c["two_d"] else "square" if c.get("more") else "row"
+        t.append("kl-arg-" + c["cont"])
+        if "matrix" in r.get("arg", []) and "err" not in r:
+            t.append("kl-matrix-" + form)
+    if k == "ent" and c.get("cont"):
+        t.append("ent-arg-" + c["cont"])
+        if r.get("arg") == "matrix" and "err" not in r:
+            sh = r.get("arg_shape") or [0, 0]
+            t.append("ent-matrix-square" if sh[0] == sh[1] and sh[0] >= 2 else "ent-matrix-row" if sh[0] == 1 else "ent-matrix-2d")
+            t.append("ent-matrix-normalize-on" if c["normalize"] else "ent-matrix-normalize-off")
     if k == "wmi":
         t.append("uniform-weights" if c["uniform"] else "general-weights")
     return t
@@ -1646,7 +1758,10 @@ ESSENTIAL_TAGS = ["jc", "generated-text-evaluated", "generated-python-evaluated"
                  ["dtype-max-" + d for d in DTYPES] + \
                  ["via-%s-%s" % (v, b or "valid") for v in VIAS for b in sorted(set(XBADS), key=str)] + \
                  ["wrap-mod-2^8", "wrap-mod-2^16", "wrap-mod-2^32", "wrap-dtype-int64", "wrap-dtype-uint64",
-                  "len0-side-X", "len0-side-Y", "jcx-rejected", "jcx-accepted"]
+                  "len0-side-X", "len0-side-Y", "jcx-rejected", "jcx-accepted"] + \
+                 ["kl-arg-" + x for x in sorted(set(KL_CONTS))] + ["ent-arg-" + x for x in sorted(set(ENT_CONTS))] + \
+                 ["kl-matrix-row", "kl-matrix-square", "kl-matrix-two", "ent-matrix-square", "ent-matrix-row",
+                  "ent-matrix-normalize-on", "ent-matrix-normalize-off"]
 
 
 if __name__ == "__main__" and "--worker" in sys.argv:
